@@ -30,12 +30,16 @@ def _follow_ups():
 def _cases(tier, seed):
   fu = _follow_ups()
   depth = 2 if tier == "quick" else 3
-  for k in range(0, depth + 1):
-    for combo in itertools.permutations(range(len(fu)), k):
-      yield dict(follow=[fu[i] for i in combo])
+  for twoway in (None, "r", "rl"):
+    for k in range(0, depth + 1):
+      for combo in itertools.permutations(range(len(fu)), k):
+        if twoway and k == depth and tier == "quick" and (sum(combo) % 3): continue
+        yield dict(follow=[fu[i] for i in combo], twoway=twoway)
 
 
-def _base():
+def _base(twoway=None):
+  """Seed document; with `twoway` the reference column B.<twoway> is one half of a two-way
+  reference (its reverse column lives in A), so adding references also updates table A."""
   from vlib.rtc import eng
   e = eng.new_engine()
   eng.apply(e, [["AddTable", "A", [{"id": "n", "type": "Int", "isFormula": False, "formula": ""}]],
@@ -44,6 +48,8 @@ def _base():
                                    {"id": "v", "type": "Any", "isFormula": True, "formula": "$r.n"}]],
                 ["BulkAddRecord", "A", [None, None], {"n": [1, 2]}],
                 ["BulkAddRecord", "B", [None], {"r": [1]}]])
+  if twoway:
+    eng.apply(e, [["AddReverseColumn", "B", twoway]])
   return e
 
 
@@ -100,7 +106,7 @@ def _call(a):
   allocated (the statement: negative ids "stand for the rows actually allocated")."""
   from vlib.rtc import eng
   bundle = [["AddRecord", "A", -1, {"n": 10}], ["AddRecord", "A", -2, {"n": 20}]] + a["follow"]
-  e1 = _base()
+  e1 = _base(a.get("twoway"))
   before = eng.snapshot(e1)
   try:
     g = eng.apply(e1, bundle); exc = None
@@ -108,7 +114,7 @@ def _call(a):
     g, exc = None, ex
   after = eng.snapshot(e1)
   # reference run
-  e2 = _base()
+  e2 = _base(a.get("twoway"))
   maps = {"A": {}, "B": {}}
   ref_exc = None
   unknown = False
@@ -162,7 +168,8 @@ def main():
     "(assumed stub); dict.update(pairs) = sequential insertion; int is mathematical",
     "tier B: bundles = two AddRecord with ids -1/-2 followed by every ordered selection of up to "
     "2 (quick) / 3 (thorough) of 15 follow-up actions, compared with the same actions applied "
-    "one by one with the allocated ids substituted", common.SHIM_ASSUMPTION]
+    "one by one with the allocated ids substituted; on three documents: plain references, and "
+    "B.r / B.rl being one half of a two-way reference", common.SHIM_ASSUMPTION]
   rep.coverage["rule"] = ("proof obligations per (clause, path); bounded: one evaluation = one "
                           "bundle on two fresh real engines; non-trivial = distinct bundle")
   rep.coverage["exhaustive"] = True
